@@ -219,6 +219,14 @@ def _store_array(
                 )
                 warn(warn_msg, stacklevel=2)
                 source = source.rechunk(target.shards)
+            elif (
+                not sharding_enabled
+                and is_storage_array(target)
+                and not _store_chunks_compatible(source, target, region)
+            ):
+                # each task writes one source chunk, so source chunks must cover
+                # whole target chunks or concurrent tasks would share a target chunk
+                source = source.rechunk(target.chunks)
     if not is_storage_array(target):
         target = lazy_zarr_array(
             target,
@@ -341,6 +349,22 @@ def _store_array(
 
         assert isinstance(out, Array)  # single output
         return out
+
+
+def _store_chunks_compatible(source, target, region) -> bool:
+    if len(target.chunks) != source.ndim:
+        return True  # leave shape errors to the checks below
+    if region is None or all(r == slice(None) for r in region):
+        # whole-array store: a source chunk must be a multiple of the target chunk (or span the axis)
+        return all(
+            sc % tc == 0 or sc >= n
+            for sc, tc, n in zip(source.chunksize, target.chunks, source.shape)
+        )
+    # region store: source blocks are mapped one-to-one onto target chunks
+    return all(
+        sc == tc or (sc >= n and tc >= n)
+        for sc, tc, n in zip(source.chunksize, target.chunks, source.shape)
+    )
 
 
 def to_zarr(
